@@ -30,6 +30,7 @@ def run(ctx, db, tier):
     async_side(ctx, db)
     who_writes(ctx, db)
     no_value(ctx, db)
+    state_tag_agrees(ctx, db)
     shared.claimed_promise(ctx, db, 'C01.lost-claim-starts-nothing')
     if ctx.cfg == 'assert':
         witness.positive(ctx, 'C01.types', 'C01_pos.cpp', 'promise<T> is move-only, future<T> is neither copyable nor movable (static_assert witnesses over the value-type matrix)')
@@ -306,3 +307,73 @@ def no_value(ctx, db):
         if not seen_cancel and not bad:
             bad = 'no path maps the resolved no-value state to await_canceled_exception'
         ctx.ob(rid, f, f['key'], bad is None, 'no-value is observed as await_canceled_exception' + ('' if not bad else ' -- ' + bad), desc=bad)
+
+
+TAG_OF_MEMBER = {'_value': 'value', '_ptr_value': 'value_ref', '_exception': 'exception'}
+
+
+def state_tag_agrees(ctx, db):
+    """the future's payload is a tagged union: writers and readers must agree on which member belongs to which tag"""
+    rid = ctx.rule('C01.state-tag-agrees', 'SIBLINGS', 'the future\'s payload union is used consistently with its state tag in every instantiation: each set/set_ref overload constructs or assigns '
+                   'one union member and then stores exactly the tag of that member (value / value_ref / exception) as its last write; the destructor destroys, and value() reads, '
+                   'the member that belongs to the switch arm they are in', floor=4)
+    T = Tracer(db, depth=0)
+    seen = set()
+    for name in ('cocls::future::set', 'cocls::future::set_ref'):
+        for f in db.need(name):
+            inst_void = f.get('class_inst', '').startswith('cocls::future<void>')
+            bad = None
+            for tr in [t for t in T.traces(f) if live(t)]:
+                members = []
+                for it in tr:
+                    m = None
+                    if it.k == 'new' and it.get('placement'):
+                        m = re.search(r'\._(value|ptr_value|exception)\b', it['placement'][0].get('path') or '')
+                    elif it.k == 'write':
+                        m = re.search(r'\._(value|ptr_value|exception)$', it.get('path') or '')
+                    if m:
+                        members.append('_' + m.group(1))
+                tags = [it for it in tr if it.k == 'write' and (it.get('path') or '') == 'this->_state']
+                sub = [c for c in calls(tr) if norm(c.get('callee')) in ('cocls::future::set_ref',)]
+                if sub and not tags and not members:
+                    continue          # reference future: set() delegates to set_ref()
+                if len(tags) != 1:
+                    bad = bad or 'the state tag is written %d times' % len(tags); continue
+                tag = (tags[0].get('rhs') or '').split('::')[-1]
+                if len(members) > 1:
+                    bad = bad or 'more than one union member is written'
+                elif members and TAG_OF_MEMBER[members[0]] != tag:
+                    bad = bad or 'member %s is stored but the tag says %s: readers will interpret the bytes as another type' % (members[0], tag)
+                elif not members and not (inst_void and tag == 'value'):
+                    bad = bad or 'the tag %s is set without a payload member having been written' % tag
+                if tags and tr.index(tags[0]) < max([i for i, it in enumerate(tr) if it.k in ('new', 'write') and it is not tags[0] and re.search(r'\._(value|ptr_value|exception)', (it.get('path') or '') + str((it.get('placement') or [{}])[0].get('path') if it.get('placement') else ''))] or [-1]):
+                    bad = bad or 'the tag is stored before the payload (an exception thrown by the value constructor would leave a tag without payload)'
+            k = (f['key'], bad)
+            if k in seen:
+                continue
+            seen.add(k)
+            ctx.ob(rid, f, f['key'], bad is None, '%s stores the tag of the member it wrote' % name.split('::')[-1] + ('' if not bad else ' -- ' + bad), desc=bad, inst=f['inst'])
+    for name, kind in (('cocls::future::~future', 'destroys'), ('cocls::future::value', 'reads')):
+        seen = set()
+        for f in db.need(name):
+            bad = None
+            for tr in T.traces(f):
+                sw = [it for it in tr if it.k == 'switch']
+                if not sw:
+                    continue
+                lab = sw[0].label or {}
+                arm = (lab.get('text') or '').split('::')[-1] if lab.get('kind') == 'case' else 'default'
+                used = set()
+                for it in tr[tr.index(sw[0]):]:
+                    p = (it.get('recv') or it.get('path') or '')
+                    m = re.search(r'\._(value|ptr_value|exception)\b', p)
+                    if m and it.k in ('call', 'read', 'write'):
+                        used.add('_' + m.group(1))
+                for mem in used:
+                    if arm == 'default' or TAG_OF_MEMBER[mem] != arm:
+                        bad = bad or 'arm %s %s member %s' % (arm, kind, mem)
+            k = (f['key'], bad)
+            if k in seen:
+                continue
+            seen.add(k)
+            ctx.ob(rid, f, f['key'], bad is None, '%s %s only the member of its switch arm' % (name.split('::')[-1], kind) + ('' if not bad else ' -- ' + bad), desc=bad, inst=f['inst'])
